@@ -27,7 +27,7 @@ ASSUMPTIONS = [
 COMPONENTS = {"real": ["TradingEnv.step", "Broker.rebalance/net_liquidation_value", "rewards.*", "Transmitter", "Exchange"],
               "harness": ["shock generator", "independent Fraction ledger"], "stub": []}
 PROBE_FLOORS = {"ruin_on_arrival": 21, "ruin_post_trade": 100, "ruin_exactly_zero": 20, "ruin_on_first_step": 36,
-                "ruin_by_own_costs": 50, "steps_attempted_after_end": 300, "recovery_after_ruin": 50, "reset_after_ruin_works": 20, "ruin_inside_spread_band": 12, "end_of_episode_handler_failed": 10}
+                "ruin_by_own_costs": 50, "steps_attempted_after_end": 300, "recovery_after_ruin": 50, "reset_after_ruin_works": 20, "ruin_inside_spread_band": 12, "end_of_episode_handler_failed": 10, "ruin_episode_replayed": 120}
 
 
 def generate(rng, i):
@@ -132,11 +132,17 @@ def generate(rng, i):
         elif liquidate_when_broke and k >= kshock - 1:
             a = [0.0] * len(a)            # the decision arriving at a broke account asks to liquidate everything
         script.append({"op": "step", "env": 0, "action": a})
+    first_steps = [dict(op) for op in script if op["op"] == "step"]
     script.append({"op": "reset", "env": 0, "fold": None, "np_seed": rng.randrange(2 ** 31)})
-    for k in range(rng.randint(1, 2)):
-        script.append({"op": "step", "env": 0, "action": [0.0] * (2 if two else 1)})
+    replay = rng.random() < 0.3
+    if replay:
+        # the same episode once more on the same environment: the ruin must be noticed again, at the same point
+        script += first_steps
+    else:
+        for k in range(rng.randint(1, 2)):
+            script.append({"op": "step", "env": 0, "action": [0.0] * (2 if two else 1)})
     return {"kind": "epi", "envs": [env], "clock0": "1999-01-01T00:00:00", "script": script, "prng": rng.randrange(2 ** 31),
-            "meta": {"phase": phase, "w": w, "f": f, "kshock": kshock, "exact": exact, "recovery": recovery, "band": band}}
+            "meta": {"phase": phase, "w": w, "f": f, "kshock": kshock, "exact": exact, "recovery": recovery, "band": band, "replay": replay}}
 
 
 def execute(scenario):
@@ -272,6 +278,13 @@ def execute(scenario):
             if st.get("done"):
                 ended, ended_how = True, "data_end"
         shapes.append("{}{}".format(len(ep["steps"]), ended_how[0] if ended_how else "-"))
+        if ei > 0 and meta.get("replay") and len(h.episodes) >= 2:
+            probe("ruin_episode_replayed")
+            e0 = h.episodes[0]
+            sig0 = [(st.get("exc"), st.get("done"), bool(st["done_before"])) for st in e0["steps"]]
+            sig1 = [(st.get("exc"), st.get("done"), bool(st["done_before"])) for st in ep["steps"]]
+            if sig0 != sig1 and not violations:
+                violate("replayed_episode_differs", "the same episode played again after reset() ends differently: first {} / second {}".format(sig0, sig1), kind="replay")
         if ei > 0 and not violations and ep["steps"] and all(s.get("exc") is None for s in ep["steps"] if not s["done_before"]):
             probe("reset_after_ruin_works")
         # violations of clause (d) that are open known findings must not stop the remaining clauses:
